@@ -61,22 +61,39 @@ Theorem C10_aggr_init_partition :
 Proof. exact @aggr_init_partition_8. Qed.
 Print Assumptions C10_aggr_init_partition.
 
-(* DEFECT: flatten_req ignores stride[0] of a record variable (witness replayed on the library: aggr:rec-stride) *)
-Theorem C10_flatten_req_refuted :
-  ~ flatten_req_spec_full.
-Proof. exact @flatten_req_spec_refuted. Qed.
-Print Assumptions C10_flatten_req_refuted.
-
-Theorem C10_flatten_req_partial :
+(* request level: the pairs sent to the aggregator cover exactly the row-major elements of the request *)
+Theorem C10_flatten_req_spec :
   forall (g : Access.geom) (start count stride : list Z),
          Proofs_Access.wf_geom g ->
          Proofs_Access.req_ok (Access.g_shape g) start count stride ->
          Base.zprod count <> 0%Z ->
-         (Access.g_isrec g = true -> hd 1%Z stride = 1%Z \/ hd 0%Z count = 1%Z) ->
          Aggregate.pair_elems (Access.g_xsz g) (Aggregate.flatten_req g start count (Some stride)) =
          Access.spec_offsets g start count stride.
-Proof. exact @flatten_req_spec_partial. Qed.
-Print Assumptions C10_flatten_req_partial.
+Proof. exact @flatten_req_spec. Qed.
+Print Assumptions C10_flatten_req_spec.
+
+Theorem C10_flatten_req_spec_null_stride :
+  forall (g : Access.geom) (start count : list Z),
+         Proofs_Access.wf_geom g ->
+         Proofs_Access.req_ok (Access.g_shape g) start count
+           (Access.ones (length (Access.g_shape g))) ->
+         Base.zprod count <> 0%Z ->
+         Aggregate.pair_elems (Access.g_xsz g) (Aggregate.flatten_req g start count None) =
+         Access.spec_offsets g start count (Access.ones (length (Access.g_shape g))).
+Proof. exact @flatten_req_spec_none. Qed.
+Print Assumptions C10_flatten_req_spec_null_stride.
+
+(* the code before the fix ignored stride[0] of a record variable; the witness is a regression input of the check *)
+Theorem C10_flatten_req_old_refuted :
+  ~
+         (forall (g : Access.geom) (start count stride : list Z),
+          Proofs_Access.wf_geom g ->
+          Proofs_Access.req_ok (Access.g_shape g) start count stride ->
+          Base.zprod count <> 0%Z ->
+          Aggregate.pair_elems (Access.g_xsz g) (flatten_req_old g start count (Some stride)) =
+          Access.spec_offsets g start count stride).
+Proof. exact @flatten_req_old_refuted. Qed.
+Print Assumptions C10_flatten_req_old_refuted.
 
 Theorem C10_ibuf_pack_equiv :
   forall (ibuf1 ibuf2 cb : Z) (contig : bool) (mem : list Base.byte) 
